@@ -116,9 +116,24 @@ impl Delay {
             // set_resample_ratio_relative(1.0): by the documentation a no-op
             noop_relative(&mut run);
         }
+        // 15 %: the very first call carries a mask that switches the (only) channel off; its input lies in the
+        // silent lead-in of the clip and its output frames count as silence, so the timeline is that of an
+        // unmasked stream - provided the following calls, which carry no mask, process the channel again
+        let mut lead_out = 0usize;
+        if !boxed && rng.chance(0.15) {
+            let g = run.drv.getters();
+            if (g.in_next + flen) as f64 + 8.0 < n0 - 6.0 * sigma {
+                let so = run.step(&Op::Proc { path: Path::Exact, slack_in: 0, slack_out: 0, mask: Some(vec![false]), empty_inactive: rng.bool() });
+                if let Ok((_, o)) = so.res {
+                    lead_out = o;
+                    st.add("clips_with_a_masked_first_call", 1.0);
+                }
+            }
+        }
         let delay = run.drv.getters().delay;
         let want_out = ((clip_len + tail) as f64 * r) as usize + delay + 8;
         let mut out: Vec<f64> = Vec::with_capacity(want_out + 4096);
+        out.resize(lead_out, 0.0);
         let mut calls = 0;
         let mut rs = resize.map(|s| Rng::derive(&[s, 0x5153]));
         // push the clip, then zeros, until the recipe's frames (and the whole pulse) have come out;
@@ -149,6 +164,11 @@ impl Delay {
         let mass: f64 = out.iter().sum();
         let mom: f64 = out.iter().enumerate().map(|(j, v)| j as f64 * v).sum();
         let want_mass = sigma * (2.0 * std::f64::consts::PI).sqrt() * r;
+        if !mass.is_finite() {
+            let j = out.iter().position(|v| !v.is_finite()).unwrap_or(0);
+            cr.viols.push(Viol::new("C14", "clip_not_written", format!("output frame {} of the stream is {} (left unwritten by a call that reported it, or not finite): the recipe returns a clip with holes", j, out[j])));
+            return cr;
+        }
         if mass.abs() <= 0.05 * want_mass {
             // not smeared or attenuated but gone: the README recipe returns a clip without the event
             cr.viols.push(Viol::new("C14", "pulse_lost", format!("a pulse centred at input frame {} (sigma {:.1}, expected mass {:.3}) is missing from the output stream (mass {:.3e} over {} output frames)", n0, sigma, want_mass, mass, out.len())));
